@@ -49,6 +49,7 @@ pub struct Gen<'a> {
 
 const PRELUDE: &str = "\
 local n = 3
+local zn, zf, zt = nil, false, 5
 local t = { x = 1, y = false, s = 'str',
   assert = function(...) emitv('t.assert', ...) return ... end,
   sel = function(k, ...) emitv('t.sel', k) return ... end,
@@ -61,6 +62,17 @@ local function two() emit(20) return 21, 22 end
 local function none() emit(30) end
 local function falsy() emit(40) return false, 'msg' end
 ";
+
+/// parenthesise anything that is not a plain leaf (keeps operator precedence out of the picture; the
+/// parentheses only truncate to one value, which every operand position does anyway)
+fn paren_if_needed(e: &str) -> String {
+    let simple = e.chars().all(|c| c.is_ascii_alphanumeric() || c == '_' || c == '.' || c == '\'');
+    if simple || e == "..." {
+        e.to_owned()
+    } else {
+        format!("({})", e)
+    }
+}
 
 pub fn generate(rng: &mut Rng, target: Target, budget: i64, defect_rate: u32) -> (String, BTreeSet<&'static str>) {
     let mut g = Gen {
@@ -183,6 +195,89 @@ impl<'a> Gen<'a> {
         }
     }
 
+    /// a value of statically UNKNOWN truthiness without side effects per the evaluator: falsy (`zn`, `zf`,
+    /// the undefined global `zu`), truthy (`zt`, `n`, `t`) — so that both arms of `and` / `or` really run
+    fn unknown_leaf(&mut self) -> String {
+        let choices = ["zn", "zf", "zu", "zt", "n", "t", "zn", "zf"];
+        let c = *self.rng.pick(&choices);
+        if c == "t" && self.in_vararg_fn && self.rng.chance(1, 3) {
+            return "...".to_owned();
+        }
+        c.to_owned()
+    }
+
+    /// a leaf the evaluator knows (constant) or one with a side effect
+    fn any_leaf(&mut self, depth: u32) -> String {
+        match self.rng.below(16) {
+            0 => "nil".to_owned(),
+            1 => "false".to_owned(),
+            2 => "true".to_owned(),
+            3 => "1".to_owned(),
+            4 => "'s'".to_owned(),
+            5 => "get1()".to_owned(),
+            6 => "flag1()".to_owned(),
+            7 => format!("emit({})", self.rng.below(9)),
+            8 => "t.x".to_owned(),
+            9 => "t.y".to_owned(),
+            10 => "two()".to_owned(),
+            11 => "none()".to_owned(),
+            12 => "falsy()".to_owned(),
+            13 => "sink(get2())".to_owned(),
+            14 => "function() end".to_owned(),
+            _ => {
+                if depth < 2 && self.callee_callable() && !matches!(self.target, Target::Inject { .. }) {
+                    self.used.insert("nested-target-call");
+                    format!("({})", self.target_call_expr(depth + 1, true))
+                } else {
+                    "t['s']".to_owned()
+                }
+            }
+        }
+    }
+
+    /// arguments drawn compositionally from the expression grammar the evaluator's `has_side_effects`
+    /// distinguishes: `and` / `or` / `not` / comparison / parentheses / table constructors over leaves of
+    /// known value, of unknown truthiness (falsy and truthy at run time) and with side effects. Every
+    /// operator used is total, so the programs stay error-free.
+    fn comp_arg(&mut self, depth: u32, size: u32) -> String {
+        self.used.insert("arg:compositional");
+        if size == 0 {
+            return if self.rng.chance(1, 2) { self.unknown_leaf() } else { self.any_leaf(depth) };
+        }
+        match self.rng.below(12) {
+            0..=2 => {
+                self.used.insert("arg:or");
+                let l = if self.rng.chance(2, 3) { self.unknown_leaf() } else { self.comp_arg(depth, size - 1) };
+                let r = self.comp_arg(depth, size - 1);
+                format!("{} or {}", paren_if_needed(&l), paren_if_needed(&r))
+            }
+            3..=5 => {
+                self.used.insert("arg:and");
+                let l = if self.rng.chance(2, 3) { self.unknown_leaf() } else { self.comp_arg(depth, size - 1) };
+                let r = self.comp_arg(depth, size - 1);
+                format!("{} and {}", paren_if_needed(&l), paren_if_needed(&r))
+            }
+            6 => format!("not {}", paren_if_needed(&self.comp_arg(depth, size - 1))),
+            7 => format!("({})", self.comp_arg(depth, size - 1)),
+            8 => {
+                self.used.insert("arg:table-constructor");
+                match self.rng.below(3) {
+                    0 => format!("{{ {} }}", self.comp_arg(depth, size - 1)),
+                    1 => format!("{{ k = {} }}", self.comp_arg(depth, size - 1)),
+                    _ => format!("{{ {}, {} }}", self.unknown_leaf(), self.comp_arg(depth, size - 1)),
+                }
+            }
+            9 => {
+                self.used.insert("arg:comparison");
+                let op = *self.rng.pick(&["==", "~="]);
+                format!("{} {} {}", paren_if_needed(&self.unknown_leaf()), op, paren_if_needed(&self.comp_arg(depth, size - 1)))
+            }
+            _ => {
+                if self.rng.chance(1, 2) { self.unknown_leaf() } else { self.any_leaf(depth) }
+            }
+        }
+    }
+
     fn multi_last(&mut self) -> Option<String> {
         if self.rng.chance(1, 4) {
             self.used.insert("arg:multi-value-last");
@@ -204,7 +299,11 @@ impl<'a> Gen<'a> {
         .max(min);
         let mut v = Vec::new();
         for _ in 0..count {
-            let a = if self.rng.chance(1, 2) { self.pure_arg() } else { self.effect_arg(depth) };
+            let a = match self.rng.below(5) {
+                0 | 1 => self.comp_arg(depth, 3),
+                2 => self.pure_arg(),
+                _ => self.effect_arg(depth),
+            };
             v.push(a);
         }
         if !v.is_empty() {
